@@ -178,7 +178,7 @@ impl<'a> GExec<'a> {
             topics: vec![sym("signers_rotated"), ScVal::U64(epoch), sbytes(&h)],
             data: ScVal::Void,
         }];
-        ctx.check(res.events == exp, &["C03"], "rotate/wrong-events", || {
+        ctx.check(crate::judge::events_match(&res.events, &exp, &[]), &["C03"], "rotate/wrong-events", || {
             format!("expected signers_rotated({}, hash), got {:?}", epoch, res.events)
         });
         true
@@ -432,7 +432,7 @@ impl<'a> GExec<'a> {
             ],
             data: svec(vec![]),
         }];
-        if !ctx.check(res.events == exp, &["C06"], "role-transfer/wrong-event", || {
+        if !ctx.check(crate::judge::events_match(&res.events, &exp, &[]), &["C06"], "role-transfer/wrong-event", || {
             format!("expected one transfer event (previous, new), got {:?}", res.events)
         }) {
             return;
@@ -546,7 +546,7 @@ impl<'a> GExec<'a> {
             ],
             data: sbytes(&pl),
         }];
-        if !ctx.check(res.events == exp, &["C13"], "call_contract/wrong-announcement", || {
+        if !ctx.check(crate::judge::events_match(&res.events, &exp, &[]), &["C13"], "call_contract/wrong-announcement", || {
             format!(
                 "expected exactly one contract_called(sender, chain, address, keccak(payload); payload); got {} event(s): {:?}",
                 res.events.len(),
@@ -653,7 +653,7 @@ impl<'a> GExec<'a> {
         }
         *self.user_gas_balance.get_mut(&u_i).unwrap() -= gas as i128;
         self.gas_held += gas as i128;
-        let from_gw: Vec<&Ev> = res.events.iter().filter(|e| e.contract == addr_bytes(&gaddr)).collect();
+        let from_gw: Vec<&Ev> = res.events.iter().filter(|e| e.contract == addr_bytes(&gaddr) && e.name() == "contract_called").collect();
         let exp = Ev {
             contract: addr_bytes(&gaddr),
             topics: vec![
